@@ -186,3 +186,23 @@ def has_table_def(eng, st, parser):
         z3.ForAll([x], z3.Implies(HT(p, x), z3.And(0 <= ft, ft < h.llen(lst), mo(ft) == x)), patterns=[HT(p, x)]),
         z3.ForAll([x, l], z3.Implies(z3.And(HT(p, x), 0 <= l, l < ft), mo(l) != x), patterns=[z3.MultiPattern(HT(p, x), h.lget(lst, l))]),
         z3.ForAll([l], z3.Implies(z3.And(0 <= l, l < h.llen(lst)), HT(p, mo(l))), patterns=[h.lget(lst, l)])))
+
+
+# ---- C01, tree side: "one decay table per Decay block, in file order" ------------------------------------------------
+contract("decaylanguage.dec.dec.get_decays", types={"parsed_file": "obj:Tree"}, requires=["wf_labels(parsed_file, 'decay')"],
+         ensures=["typ(result, 'list') and isfresh(result)",
+                  # every Decay block, once, in file order
+                  "llen(result) == len(stmts(parsed_file, 'decay'))",
+                  "forall(lambda j: implies(0 <= j < llen(result), same(lget(result, j), stmts(parsed_file, 'decay')[j])))"],
+         returns="list", properties=["C01"])
+
+contract(C + "number_of_decays", requires=[f"self._parsed_dec_file is None or typ({DECAYS}, 'list')"],
+         ensures=[f"result == llen({DECAYS})"],
+         raises={"DecFileNotParsed": "self._parsed_dec_file is None"}, returns="int", properties=["C01"])
+
+contract(C + "list_decay_mother_names", requires=PARSED,
+         ensures=["typ(result, 'list') and isfresh(result)",
+                  # one name per stored table, in the order of the tables
+                  f"llen(result) == llen({DECAYS})",
+                  f"forall(lambda j: implies(0 <= j < llen(result), same(lget(result, j), mother_of(lget({DECAYS}, j)))))"],
+         raises={"DecFileNotParsed": "self._parsed_dec_file is None"}, returns="list", properties=["C01"])
